@@ -382,6 +382,7 @@ def frame(ctx):
     TM = symarray('t', (3, 3), real=True)
     n = 0
     GIVEN = symarray('g', (3, 3), real=True)      # the vectors as the caller wrote them (not unit, not checked)
+    BRAW = symarray('braw', (3,), real=True)       # the Burgers vector as the caller wrote it (crystal units of the given box)
     for tag, kw in (('Miller line and plane', dict(ξ_uvw='XI', slip_hkl='HKL')), ('transform', dict(transform=GIVEN)), ('axes (legacy)', dict(axes=GIVEN)), ('no orientation', dict())):
         n += 1
         rec = []
@@ -406,7 +407,7 @@ def frame(ctx):
         ev = SymEval(aliases)
         ev.globals = {'miller': Mil(), 'axes_check': lambda a: (rec.append(('axes_check', a)) or TM), 'Box': lambda: 'DEFAULTBOX', 'dislocation_system_transform': find}
         try:
-            p = [q for q in ev.run_fn(sfn, [obj, Cst(), 'BURGERS'], dict(kw, box='BOX', m='y', n='z')) if q.done == 'return']
+            p = [q for q in ev.run_fn(sfn, [obj, Cst(), BRAW], dict(kw, box='BOX', m='y', n='z')) if q.done == 'return']
         except Opaque as e:
             raise AnalysisError('VolterraDislocation.solve (%s): %s' % (tag, e))
         ctx.need(len(p) == 1, 'VolterraDislocation.solve does not reduce to one path (%s)' % tag)
@@ -426,7 +427,7 @@ def frame(ctx):
         ct = [r for r in rec if r[0] == 'C.transform']
         bc = [r for r in rec if r[0] == 'b_cart']
         gb = a.get('_VolterraDislocation__burgers')
-        ok = len(ct) == 1 and equal(np.asarray(ct[0][1], dtype=object), Texp) and a.get('_VolterraDislocation__C') == ('CT', ct[0][1]) and len(bc) == 1 and bc[0][1] == 'BURGERS' and bc[0][2] == 'BOX' \
+        ok = len(ct) == 1 and equal(np.asarray(ct[0][1], dtype=object), Texp) and a.get('_VolterraDislocation__C') == ('CT', ct[0][1]) and len(bc) == 1 and bc[0][1] is BRAW and bc[0][2] == 'BOX' \
             and gb is not None and equal(np.asarray(gb, dtype=object), Texp.dot(B))
         ctx.ob('FRAME', loc, '%s: the Burgers vector (crystal -> Cartesian in the given box) and the elastic constants are rotated with that same matrix' % tag, bool(ok), node=sfn, key=tag + ' same matrix')
         ok = equal(a.get('_VolterraDislocation__m'), arr([0, 1, 0])) and equal(a.get('_VolterraDislocation__n'), arr([0, 0, 1])) and equal(a.get('_VolterraDislocation__ξ'), arr([1, 0, 0]))
@@ -561,6 +562,13 @@ def resolve_state(ctx):
     ctx.floor('RESOLVE-STATE/methods', n, 30)
 
 
+def stiffness_rotation(ctx):
+    """solve() rotates the stiffness with ElasticConstants.transform: its round-off clean-up keeps negative constants (a rotated tensor is full of them), decided by the
+    rule of the property that owns it"""
+    from .c11 import cleanup_keeps_signs
+    cleanup_keeps_signs(ctx, 'STIFFNESS-ROTATION')
+
+
 def float_fields(ctx):
     """strain and stress are assembled component by component in a buffer; the buffer is float for whole-number field points too"""
     dtypeflow.float_buffers(ctx, 'FLOAT-FIELDS', ISO, 'IsotropicVolterraDislocation.strain', floor=6, what='strain components')
@@ -573,4 +581,4 @@ def run(ctx):
                        'handling is evaluated with recording stubs (same rotation for b and C, four input routes, sibling transform, m/n validation, relative round-off); the solver dispatch is evaluated '
                        'with a raising model of the anisotropic solver; the plane-normal construction used by the Miller route is decided as in C16. Not decided: accuracy of the numerical eigen-solution, positive-definiteness, the isotropic limit.')
     from .c16 import plane_normal     # the Miller route (ξ_uvw, slip_hkl) gets its n axis from miller.plane_crystal_to_cartesian
-    ctx.run_rules([isotropic, stroh, frame, dispatch, plane_normal, float_fields, resolve_state])
+    ctx.run_rules([isotropic, stroh, frame, dispatch, plane_normal, float_fields, resolve_state, stiffness_rotation])
